@@ -705,6 +705,10 @@ class HtpasswdFile(_CommonFile):
             to prevent ambiguity with the dictionary method.
             The old alias was removed in Passlib 1.8.
         """
+        if isinstance(password, str):
+            # NOTE: encoded the same way check_password() does (see the note there),
+            #       so that a password set as text is the one checked as text.
+            password = password.encode(self.encoding)
         hash = self.context.hash(password)
         return self.set_hash(user, hash)
 
